@@ -606,19 +606,21 @@ def r1_parallel(run, w, writes, analysis):
          "stored action and every flag, unfiltered, in the same envelope", ok, fi=fn.fi)
   # check_sanity compares the two lengths and is run by apply_user_actions after the flush
   cs = w.fn("action_obj.ActionGroup.check_sanity")
-  from ..guards import establishing_edges
   def mismatch(e):
     return isinstance(e, ast.Compare) and len(e.ops) == 1 and \
         {H.canon(cs, e.left), H.canon(cs, e.comparators[0])} == {"len(self.stored)",
                                                                   "len(self.direct)"} and \
         isinstance(e.ops[0], (ast.NotEq, ast.Eq))
   ok = False
-  for pol in (True, False):
-    for (a, b) in establishing_edges(cs.cfg, lambda e: mismatch(e) and
-                                     isinstance(e.ops[0], ast.NotEq if pol else ast.Eq), pol):
-      r = cs.cfg.reach({b})
-      if any(cs.cfg.nodes[x].kind == "raise_stmt" for x in r) and cs.cfg.exit.id not in r:
-        ok = True
+  for n in cs.cfg.nodes:
+    if n.kind != "if":
+      continue
+    for t in H.test_atoms(n.stmt.test):
+      if mismatch(t):
+        differ = lambda e, t=t: isinstance(t.ops[0], ast.NotEq) if e is t else None
+        r = H.reach_assuming(cs.cfg, {n.id}, differ)
+        if any(cs.cfg.nodes[x].kind == "raise_stmt" for x in r) and cs.cfg.exit.id not in r:
+          ok = True
   run.ob(R1, cs.qualname, "if len(self.stored) != len(self.direct): raise",
          "a length mismatch is an error, not a silently misaligned reply", ok, fi=cs.fi,
          nontrivial=False)
